@@ -6,15 +6,66 @@
 // is decided here, from the construction of the revision, never by asking the library.
 //
 // Every revision declares `trait Iface` (the ledger keys its files by trait name) in a module of
-// its own. A revision is (parent revision, one edit); the base revision of every interface kind:
+// its own.
+//
+// A. EVOLUTION families (5 interface kinds). A revision is (parent revision, one edit); the base
+//    revision of every interface kind:
 //
 //     struct Arg { a: u32 }        enum En { A, B }
 //     trait Iface { fn f(&self, x: u32, s: Arg, e: En [, kind specific argument]) -> u32;
 //                   fn g(&self, y: u32) -> u32; }
 //
-// Interface kinds: plain methods; `#[async_trait]` async methods; methods returning
-// `Pin<Box<dyn Future<Output = T>>>`; `f` takes a closure `c: &dyn Fn(u32) -> u32`; `f` takes a
-// boxed trait object `o: Box<dyn Other>` (`trait Other { fn h(&self, x: u32) -> u32; fn h2(..) }`).
+//    Interface kinds: plain methods; `#[async_trait]` async methods; methods returning
+//    `Pin<Box<dyn Future<Output = T>>>`; `f` takes a closure `c: &dyn Fn(u32) -> u32`; `f` takes a
+//    boxed trait object `o: Box<dyn Other>` (`trait Other { fn h(&self, x: u32) -> u32; fn h2(..) }`).
+//
+// B. TYPE-MATRIX families (one per SLOT, i.e. per position a type can occupy in an interface). The
+//    interface is minimal (`fn g(..)` carrying the slot, plus an untouched `fn k(&self, z: u32) -> u32`);
+//    revision i puts the i-th type of the slot's TYPE ALPHABET into the slot, everything at
+//    interface version 0. Every revision may follow every other, so that a search of depth 2 from the
+//    empty directory presents every ORDERED PAIR (recorded type, presented type) of the alphabet to
+//    the ledger. Slots: method argument, method return value, closure argument / closure return
+//    value, argument / return value of a method of a `Box<dyn Other>` argument, field of a struct
+//    argument, payload of an enum variant of an argument, argument / return value of an
+//    `#[async_trait]` method, output of a returned boxed future.
+//    The alphabet is built by construction: all scalar primitives, String, `&str`, unit, a struct,
+//    an enum, and every type constructor the ABI macro knows (`&T`, `Vec<T>`, `&[T]`,
+//    `Option<T>`, `Box<T>`, `[T; N]`, tuples, `Result<T, E>`, maps, trait objects, closures) applied
+//    to a small set of inner types.
+//    The model compares WIRE FORMS (see `wire`): two Rust types are the same type for the ledger
+//    exactly when savefile-abi moves them across the boundary in the same way.
+
+#[derive(Clone, Copy, PartialEq, Eq, Hash, PartialOrd, Ord, Debug)]
+pub enum Slot {
+    Arg,
+    Ret,
+    ClosureArg,
+    ClosureRet,
+    NestedArg,
+    NestedRet,
+    Field,
+    VariantField,
+    AsyncArg,
+    AsyncRet,
+    FutureOut,
+}
+impl Slot {
+    pub fn label(self) -> &'static str {
+        match self {
+            Slot::Arg => "arg",
+            Slot::Ret => "ret",
+            Slot::ClosureArg => "closure_arg",
+            Slot::ClosureRet => "closure_ret",
+            Slot::NestedArg => "nested_arg",
+            Slot::NestedRet => "nested_ret",
+            Slot::Field => "field",
+            Slot::VariantField => "variant_field",
+            Slot::AsyncArg => "async_arg",
+            Slot::AsyncRet => "async_ret",
+            Slot::FutureOut => "future_out",
+        }
+    }
+}
 
 #[derive(Clone, Copy, PartialEq, Eq, Hash, PartialOrd, Ord, Debug)]
 pub enum Kind {
@@ -23,8 +74,27 @@ pub enum Kind {
     BoxedFuture,
     Closure,
     BoxedTrait,
+    /// type-matrix family of one slot
+    Types(Slot),
 }
-pub const KINDS: [Kind; 5] = [Kind::Plain, Kind::AsyncTrait, Kind::BoxedFuture, Kind::Closure, Kind::BoxedTrait];
+pub const KINDS: [Kind; 16] = [
+    Kind::Plain,
+    Kind::AsyncTrait,
+    Kind::BoxedFuture,
+    Kind::Closure,
+    Kind::BoxedTrait,
+    Kind::Types(Slot::Arg),
+    Kind::Types(Slot::Ret),
+    Kind::Types(Slot::ClosureArg),
+    Kind::Types(Slot::ClosureRet),
+    Kind::Types(Slot::NestedArg),
+    Kind::Types(Slot::NestedRet),
+    Kind::Types(Slot::Field),
+    Kind::Types(Slot::VariantField),
+    Kind::Types(Slot::AsyncArg),
+    Kind::Types(Slot::AsyncRet),
+    Kind::Types(Slot::FutureOut),
+];
 impl Kind {
     pub fn label(self) -> &'static str {
         match self {
@@ -33,6 +103,17 @@ impl Kind {
             Kind::BoxedFuture => "boxed_future",
             Kind::Closure => "closure",
             Kind::BoxedTrait => "boxed_trait",
+            Kind::Types(Slot::Arg) => "types_arg",
+            Kind::Types(Slot::Ret) => "types_ret",
+            Kind::Types(Slot::ClosureArg) => "types_closure_arg",
+            Kind::Types(Slot::ClosureRet) => "types_closure_ret",
+            Kind::Types(Slot::NestedArg) => "types_nested_arg",
+            Kind::Types(Slot::NestedRet) => "types_nested_ret",
+            Kind::Types(Slot::Field) => "types_field",
+            Kind::Types(Slot::VariantField) => "types_variant_field",
+            Kind::Types(Slot::AsyncArg) => "types_async_arg",
+            Kind::Types(Slot::AsyncRet) => "types_async_ret",
+            Kind::Types(Slot::FutureOut) => "types_future_out",
         }
     }
     pub fn index(self) -> usize {
@@ -41,39 +122,332 @@ impl Kind {
     pub fn from_label(s: &str) -> Option<Kind> {
         KINDS.iter().copied().find(|k| k.label() == s)
     }
-}
-
-#[derive(Clone, Copy, PartialEq, Eq, Hash, PartialOrd, Ord, Debug)]
-pub enum Prim {
-    U32,
-    U64,
-}
-impl Prim {
-    fn src(self) -> &'static str {
+    pub fn slot(self) -> Option<Slot> {
         match self {
-            Prim::U32 => "u32",
-            Prim::U64 => "u64",
+            Kind::Types(s) => Some(s),
+            _ => None,
+        }
+    }
+    /// how the methods of `Iface` are declared
+    pub fn shape(self) -> Kind {
+        match self {
+            Kind::Types(Slot::Arg) | Kind::Types(Slot::Ret) | Kind::Types(Slot::Field) | Kind::Types(Slot::VariantField) => Kind::Plain,
+            Kind::Types(Slot::ClosureArg) | Kind::Types(Slot::ClosureRet) => Kind::Closure,
+            Kind::Types(Slot::NestedArg) | Kind::Types(Slot::NestedRet) => Kind::BoxedTrait,
+            Kind::Types(Slot::AsyncArg) | Kind::Types(Slot::AsyncRet) => Kind::AsyncTrait,
+            Kind::Types(Slot::FutureOut) => Kind::BoxedFuture,
+            k => k,
         }
     }
 }
 
-#[derive(Clone, PartialEq, Eq, Debug)]
-pub enum ArgTy {
-    Prim(Prim),
+// ---------------------------------------------------------------------------------------------
+// source-level types
+
+/// A Rust type as written in the source of a revision.
+#[derive(Clone, PartialEq, Eq, Hash, PartialOrd, Ord, Debug)]
+pub enum Ty {
+    /// scalar primitive or `String`, spelled by name
+    P(&'static str),
+    Unit,
+    /// `&str`
+    Str,
+    /// `&'static str` (the only reference savefile-abi accepts in return position)
+    StaticStr,
+    Ref(Box<Ty>),
+    Vec(Box<Ty>),
+    VecDeque(Box<Ty>),
+    /// `&[T]`
+    Slice(Box<Ty>),
+    Array(Box<Ty>, usize),
+    Opt(Box<Ty>),
+    Boxed(Box<Ty>),
+    Tuple(Vec<Ty>),
+    Result(Box<Ty>, Box<Ty>),
+    HashMap(Box<Ty>, Box<Ty>),
+    BTreeMap(Box<Ty>, Box<Ty>),
+    /// `struct Arg` of the revision
     Arg,
+    /// `enum En` of the revision
     En,
-    /// `&dyn Fn(a) -> r`
-    Closure(Prim, Prim),
-    /// `Box<dyn Other>`
-    Other,
+    /// `&dyn Fn(a) -> r` (`how` = ClosureRef), `&mut dyn FnMut(a) -> r`, `Box<dyn Fn(a) -> r>`
+    Closure(ClosureHow, Box<Ty>, Box<Ty>),
+    /// `Box<dyn Other>` (true) or `&dyn Other` (false)
+    Other(bool),
+    /// a fixed auxiliary type declared in the module (see `AUX`)
+    Aux(&'static str),
+    /// a standard-library type with a fixed serialized form (see `std_wire`)
+    Std(&'static str),
 }
+
+/// Auxiliary declarations: (name, source)
+pub const AUX: [(&str, &str); 2] = [
+    ("Arg2", "    #[derive(Savefile)]\n    pub struct Arg2 {\n        pub a: u32,\n        pub b: u32,\n    }\n"),
+    ("En3", "    #[derive(Savefile)]\n    pub enum En3 {\n        A,\n        B,\n        C,\n    }\n"),
+];
+/// Standard-library types: (spelling, label)
+pub const STD: [(&str, &str); 5] = [
+    ("std::time::Duration", "Duration"),
+    ("std::ops::Range<u32>", "Range<u32>"),
+    ("std::collections::BTreeSet<u32>", "BTreeSet<u32>"),
+    ("std::sync::Arc<str>", "Arc<str>"),
+    ("std::path::PathBuf", "PathBuf"),
+];
+#[derive(Clone, Copy, PartialEq, Eq, Hash, PartialOrd, Ord, Debug)]
+pub enum ClosureHow {
+    RefFn,
+    RefMutFnMut,
+    BoxFn,
+}
+
+pub fn p(name: &'static str) -> Ty {
+    Ty::P(name)
+}
+pub fn u32t() -> Ty {
+    Ty::P("u32")
+}
+pub fn u64t() -> Ty {
+    Ty::P("u64")
+}
+fn bx(t: Ty) -> Box<Ty> {
+    Box::new(t)
+}
+
+impl Ty {
+    /// Rust source of the type
+    pub fn src(&self) -> String {
+        match self {
+            Ty::P(n) => n.to_string(),
+            Ty::Unit => "()".to_string(),
+            Ty::Str => "&str".to_string(),
+            Ty::StaticStr => "&'static str".to_string(),
+            Ty::Ref(t) => format!("&{}", t.src()),
+            Ty::Vec(t) => format!("Vec<{}>", t.src()),
+            Ty::VecDeque(t) => format!("std::collections::VecDeque<{}>", t.src()),
+            Ty::Slice(t) => format!("&[{}]", t.src()),
+            Ty::Array(t, n) => format!("[{}; {}]", t.src(), n),
+            Ty::Opt(t) => format!("Option<{}>", t.src()),
+            Ty::Boxed(t) => format!("Box<{}>", t.src()),
+            Ty::Tuple(ts) => format!("({})", ts.iter().map(|t| t.src()).collect::<Vec<_>>().join(", ")),
+            Ty::Result(a, b) => format!("Result<{}, {}>", a.src(), b.src()),
+            Ty::HashMap(k, v) => format!("std::collections::HashMap<{}, {}>", k.src(), v.src()),
+            Ty::BTreeMap(k, v) => format!("std::collections::BTreeMap<{}, {}>", k.src(), v.src()),
+            Ty::Arg => "Arg".to_string(),
+            Ty::En => "En".to_string(),
+            Ty::Closure(ClosureHow::RefFn, a, r) => format!("&dyn Fn({}) -> {}", a.src(), r.src()),
+            Ty::Closure(ClosureHow::RefMutFnMut, a, r) => format!("&mut dyn FnMut({}) -> {}", a.src(), r.src()),
+            Ty::Closure(ClosureHow::BoxFn, a, r) => format!("Box<dyn Fn({}) -> {}>", a.src(), r.src()),
+            Ty::Other(true) => "Box<dyn Other>".to_string(),
+            Ty::Other(false) => "&dyn Other".to_string(),
+            Ty::Aux(n) => n.to_string(),
+            Ty::Std(n) => n.to_string(),
+        }
+    }
+    /// the spelling used in revision labels and tags (no blanks, no commas)
+    pub fn label(&self) -> String {
+        if let Ty::Std(n) = self {
+            return STD.iter().find(|x| x.0 == *n).expect("std type").1.to_string();
+        }
+        self.src().replace("std::collections::", "").replace(", ", ";").replace("; ", ";").replace(' ', "_")
+    }
+    fn mentions(&self, what: &Ty) -> bool {
+        if let (Ty::Aux(a), Ty::Aux(b)) = (self, what) {
+            return a == b;
+        }
+        if std::mem::discriminant(self) == std::mem::discriminant(what) {
+            return true;
+        }
+        match self {
+            Ty::Ref(t) | Ty::Vec(t) | Ty::VecDeque(t) | Ty::Slice(t) | Ty::Array(t, _) | Ty::Opt(t) | Ty::Boxed(t) => t.mentions(what),
+            Ty::Tuple(ts) => ts.iter().any(|t| t.mentions(what)),
+            Ty::Result(a, b) | Ty::HashMap(a, b) | Ty::BTreeMap(a, b) | Ty::Closure(_, a, b) => a.mentions(what) || b.mentions(what),
+            _ => false,
+        }
+    }
+}
+
+// ---------------------------------------------------------------------------------------------
+// the type alphabets
+
+const SCALARS: [&str; 16] = ["u8", "u16", "u64", "u128", "i8", "i16", "i32", "i64", "i128", "usize", "isize", "f32", "f64", "bool", "char", "String"];
+
+fn dedup(v: Vec<Ty>) -> Vec<Ty> {
+    let mut out: Vec<Ty> = vec![];
+    for t in v {
+        if !out.contains(&t) {
+            out.push(t);
+        }
+    }
+    out
+}
+
+/// The type alphabet of a slot. Element 0 is always `u32` (the base revision).
+pub fn alphabet(slot: Slot) -> Vec<Ty> {
+    let inner = || vec![u32t(), u64t(), p("String"), Ty::Arg];
+    let closure = |how, a: Ty, r: Ty| Ty::Closure(how, bx(a), bx(r));
+    // every type that owns its data (legal as argument, return value and field)
+    let owned_full = || {
+        let mut v = vec![u32t()];
+        v.extend(SCALARS.iter().map(|n| p(n)));
+        v.extend([Ty::Unit, Ty::Arg, Ty::En]);
+        for t in inner() {
+            v.push(Ty::Vec(bx(t.clone())));
+            v.push(Ty::Opt(bx(t.clone())));
+            v.push(Ty::Boxed(bx(t.clone())));
+            v.push(Ty::Tuple(vec![t.clone(), u32t()]));
+        }
+        // (savefile-abi accepts arrays only inside other owned types)
+        v.extend([
+            Ty::Vec(bx(Ty::Array(bx(u32t()), 2))),
+            Ty::Vec(bx(Ty::Array(bx(u32t()), 3))),
+            Ty::Vec(bx(Ty::Array(bx(u64t()), 2))),
+            Ty::Opt(bx(Ty::Array(bx(u32t()), 2))),
+            Ty::Tuple(vec![u32t(), u32t(), u32t()]),
+            Ty::VecDeque(bx(u32t())),
+            Ty::Vec(bx(p("u8"))),
+            Ty::Vec(bx(Ty::Tuple(vec![u32t(), u32t()]))),
+            Ty::HashMap(bx(u32t()), bx(u32t())),
+            Ty::BTreeMap(bx(u32t()), bx(u32t())),
+            Ty::BTreeMap(bx(u32t()), bx(u64t())),
+            Ty::Opt(bx(Ty::Vec(bx(u32t())))),
+            Ty::Vec(bx(Ty::Opt(bx(u32t())))),
+            Ty::Vec(bx(Ty::Vec(bx(u32t())))),
+            Ty::Opt(bx(Ty::Opt(bx(u32t())))),
+            Ty::Aux("Arg2"),
+            Ty::Aux("En3"),
+        ]);
+        v.extend(STD.iter().map(|x| Ty::Std(x.0)));
+        v
+    };
+    let results = || {
+        vec![
+            Ty::Result(bx(u32t()), bx(u32t())),
+            Ty::Result(bx(u64t()), bx(u32t())),
+            Ty::Result(bx(u32t()), bx(u64t())),
+            Ty::Result(bx(u32t()), bx(p("String"))),
+            Ty::Result(bx(p("String")), bx(u32t())),
+            Ty::Result(bx(Ty::Unit), bx(u32t())),
+        ]
+    };
+    // a cross-section of the above for the slots nested inside something else
+    let owned_small = || {
+        vec![
+            u32t(),
+            u64t(),
+            p("i32"),
+            p("usize"),
+            p("bool"),
+            p("String"),
+            Ty::Unit,
+            Ty::Arg,
+            Ty::En,
+            Ty::Vec(bx(u32t())),
+            Ty::Vec(bx(u64t())),
+            Ty::Opt(bx(u32t())),
+            Ty::Boxed(bx(u32t())),
+            Ty::Vec(bx(Ty::Array(bx(u32t()), 2))),
+            Ty::Tuple(vec![u32t(), u32t()]),
+        ]
+    };
+    let borrowed_small = || vec![Ty::Str, Ty::Ref(bx(u32t())), Ty::Ref(bx(p("String"))), Ty::Slice(bx(u32t()))];
+    let v = match slot {
+        Slot::Arg => {
+            let mut v = owned_full();
+            v.push(Ty::Str);
+            for t in inner() {
+                v.push(Ty::Ref(bx(t.clone())));
+                v.push(Ty::Slice(bx(t.clone())));
+            }
+            // (`&mut T` is accepted for trait objects and closures only)
+            v.extend([
+                Ty::Slice(bx(p("u8"))),
+                Ty::Ref(bx(Ty::Vec(bx(u32t())))),
+                Ty::Ref(bx(Ty::Opt(bx(u32t())))),
+                Ty::Other(true),
+                Ty::Other(false),
+                closure(ClosureHow::RefFn, u32t(), u32t()),
+                closure(ClosureHow::RefFn, u64t(), u32t()),
+                closure(ClosureHow::RefFn, u32t(), u64t()),
+                closure(ClosureHow::RefFn, p("String"), u32t()),
+                closure(ClosureHow::RefFn, Ty::Str, u32t()),
+                closure(ClosureHow::RefMutFnMut, u32t(), u32t()),
+                closure(ClosureHow::BoxFn, u32t(), u32t()),
+            ]);
+            v
+        }
+        Slot::Ret => {
+            let mut v = owned_full();
+            v.push(Ty::StaticStr);
+            v.extend(results());
+            v.extend([Ty::Other(true), closure(ClosureHow::BoxFn, u32t(), u32t()), closure(ClosureHow::BoxFn, u64t(), u32t())]);
+            v
+        }
+        Slot::ClosureArg | Slot::NestedArg => {
+            let mut v = owned_small();
+            v.extend(borrowed_small());
+            v
+        }
+        Slot::AsyncArg => owned_small(),
+        Slot::ClosureRet | Slot::NestedRet | Slot::AsyncRet | Slot::FutureOut => {
+            let mut v = owned_small();
+            if slot != Slot::FutureOut && slot != Slot::AsyncRet {
+                v.push(Ty::StaticStr);
+            }
+            v.extend([Ty::Result(bx(u32t()), bx(u32t())), Ty::Result(bx(u32t()), bx(p("String")))]);
+            v
+        }
+        Slot::Field => {
+            let mut v: Vec<Ty> = owned_small().into_iter().filter(|t| *t != Ty::Arg).collect();
+            v.extend([p("u8"), p("i64"), Ty::VecDeque(bx(u32t())), Ty::Opt(bx(u64t())), Ty::Array(bx(u32t()), 2), Ty::Array(bx(u32t()), 3), Ty::Array(bx(u64t()), 2), Ty::Tuple(vec![u32t(), u64t()])]);
+            v
+        }
+        Slot::VariantField => {
+            let mut v: Vec<Ty> = owned_small().into_iter().filter(|t| *t != Ty::En).collect();
+            v.extend([p("u8"), p("i64"), Ty::VecDeque(bx(u32t())), Ty::Opt(bx(u64t())), Ty::Array(bx(u32t()), 2), Ty::Array(bx(u32t()), 3), Ty::Array(bx(u64t()), 2), Ty::Tuple(vec![u32t(), u64t()])]);
+            v
+        }
+    };
+    let v = dedup(v);
+    assert!(v[0] == u32t());
+    v
+}
+
+/// Pairs of spellings that savefile-abi moves across the boundary identically (declared by hand,
+/// independently of `wire`; the engine checks at start-up that `wire` induces exactly the
+/// equivalence generated by these pairs on every alphabet). Reasons:
+/// * `Box<T>` of an owned serializable T is declared by savefile to have the schema and the
+///   serialized form of T, and owned values always travel serialized;
+/// * usize / isize are serialized as (and given the schema of) u64 / i64 on 64-bit targets;
+/// * all sequence containers serialize as length + elements; a map is the sequence of its
+///   (key, value) pairs.
+pub const DECLARED_SAME_WIRE: [(&str, &str); 14] = [
+    // fields are serialized in order, without names
+    ("Arg2", "(u32;u32)"),
+    ("Range<u32>", "(u32;u32)"),
+    ("BTreeSet<u32>", "Vec<u32>"),
+    // every owned string type is length + utf-8 bytes
+    ("Arc<str>", "String"),
+    ("PathBuf", "String"),
+    ("Box<u32>", "u32"),
+    ("Box<u64>", "u64"),
+    ("Box<String>", "String"),
+    ("Box<Arg>", "Arg"),
+    ("usize", "u64"),
+    ("isize", "i64"),
+    ("VecDeque<u32>", "Vec<u32>"),
+    ("HashMap<u32;u32>", "Vec<(u32;u32)>"),
+    ("BTreeMap<u32;u32>", "Vec<(u32;u32)>"),
+];
+
+// ---------------------------------------------------------------------------------------------
+// specs
 
 #[derive(Clone, PartialEq, Eq, Debug)]
 pub struct Method {
     pub name: String,
-    pub args: Vec<(String, ArgTy)>,
+    pub args: Vec<(String, Ty)>,
     /// logical result type; the interface kind decides how it is wrapped (async fn / boxed future)
-    pub ret: Prim,
+    pub ret: Ty,
 }
 
 /// Concrete source-level description of one revision.
@@ -82,11 +456,33 @@ pub struct Spec {
     pub version: u32,
     pub methods: Vec<Method>,
     /// fields of `struct Arg`: (name, type, first version that has it)
-    pub arg_fields: Vec<(String, Prim, u32)>,
-    /// variants of `enum En`: (name, first version that has it)
-    pub en_variants: Vec<(String, u32)>,
-    /// methods of `trait Other` (boxed-trait kind only)
+    pub arg_fields: Vec<(String, Ty, u32)>,
+    /// variants of `enum En`: (name, first version that has it, payload)
+    pub en_variants: Vec<(String, u32, Option<Ty>)>,
+    /// methods of `trait Other`
     pub other: Vec<Method>,
+}
+impl Spec {
+    fn all_types(&self) -> Vec<&Ty> {
+        let mut v = vec![];
+        for m in self.methods.iter().chain(self.other.iter()) {
+            v.push(&m.ret);
+            v.extend(m.args.iter().map(|a| &a.1));
+        }
+        v
+    }
+    fn uses_aux(&self, name: &'static str) -> bool {
+        self.all_types().iter().any(|t| t.mentions(&Ty::Aux(name)))
+    }
+    fn uses_other(&self) -> bool {
+        self.all_types().iter().any(|t| t.mentions(&Ty::Other(true)))
+    }
+    fn uses_en(&self) -> bool {
+        self.all_types().iter().any(|t| t.mentions(&Ty::En)) || self.arg_fields.iter().any(|f| f.1.mentions(&Ty::En))
+    }
+    fn uses_arg(&self) -> bool {
+        self.all_types().iter().any(|t| t.mentions(&Ty::Arg)) || self.en_variants.iter().any(|v| v.2.as_ref().map(|t| t.mentions(&Ty::Arg)).unwrap_or(false))
+    }
 }
 
 #[derive(Clone, Copy, PartialEq, Eq, Debug)]
@@ -122,6 +518,8 @@ pub enum Edit {
     OtherRetType,
     OtherAddMethod,
     OtherRemoveMethod,
+    /// type-matrix families: the slot holds the i-th type of the slot's alphabet
+    SetType(usize),
 }
 
 /// What the property text says about the edit, relative to the parent revision (used only to
@@ -132,20 +530,23 @@ pub enum Class {
     Breaking,
 }
 impl Edit {
-    pub fn class(self) -> Class {
+    /// `None` for the type-matrix edit, whose class is checked pairwise against
+    /// `DECLARED_SAME_WIRE` instead
+    pub fn class(self) -> Option<Class> {
         use Edit::*;
         match self {
-            Same | AddMethod | AddMethodFront | AddVField | AddVariant | Bump | AddVFieldWide | AddVField2 | AddVariant2 | OtherAddMethod => Class::Compatible,
+            Same | AddMethod | AddMethodFront | AddVField | AddVariant | Bump | AddVFieldWide | AddVField2 | AddVariant2 | OtherAddMethod => Some(Class::Compatible),
             RemoveMethod | ArgCount | ArgType | RetType | FieldType | DropVField | ClosureArgType | ClosureRetType | OtherArgType | OtherRetType | OtherRemoveMethod => {
-                Class::Breaking
+                Some(Class::Breaking)
             }
+            SetType(_) => None,
         }
     }
 }
 
 #[derive(Clone, Debug)]
 pub struct Revision {
-    pub label: &'static str,
+    pub label: String,
     pub parent: Option<usize>,
     pub edit: Edit,
     /// presented only in the thorough tier (the module is always generated)
@@ -153,10 +554,17 @@ pub struct Revision {
 }
 
 pub fn revisions(kind: Kind) -> Vec<Revision> {
-    let r = |label, parent, edit| Revision { label, parent: Some(parent), edit, thorough_only: false };
-    let t = |label, parent, edit| Revision { label, parent: Some(parent), edit, thorough_only: true };
+    if let Kind::Types(slot) = kind {
+        return alphabet(slot)
+            .iter()
+            .enumerate()
+            .map(|(i, t)| Revision { label: format!("{}={}", slot.label(), t.label()), parent: if i == 0 { None } else { Some(0) }, edit: Edit::SetType(i), thorough_only: false })
+            .collect();
+    }
+    let r = |label: &str, parent, edit| Revision { label: label.to_string(), parent: Some(parent), edit, thorough_only: false };
+    let t = |label: &str, parent, edit| Revision { label: label.to_string(), parent: Some(parent), edit, thorough_only: true };
     let mut v = vec![
-        Revision { label: "base", parent: None, edit: Edit::Same, thorough_only: false },
+        Revision { label: "base".to_string(), parent: None, edit: Edit::Same, thorough_only: false },
         r("same", 0, Edit::Same),
         r("add_method", 0, Edit::AddMethod),
         r("add_method_front", 0, Edit::AddMethodFront),
@@ -195,55 +603,94 @@ pub fn revisions(kind: Kind) -> Vec<Revision> {
     v
 }
 
-fn m(name: &str, args: &[(&str, ArgTy)], ret: Prim) -> Method {
+fn m(name: &str, args: &[(&str, Ty)], ret: Ty) -> Method {
     Method { name: name.to_string(), args: args.iter().map(|(n, t)| (n.to_string(), t.clone())).collect(), ret }
 }
 
+/// The interface of a type-matrix family with `t` in the slot.
+fn types_spec(slot: Slot, t: &Ty) -> Spec {
+    let t = t.clone();
+    let closure = |a: Ty, r: Ty| Ty::Closure(ClosureHow::RefFn, bx(a), bx(r));
+    let mut s = Spec {
+        version: 0,
+        methods: vec![],
+        arg_fields: vec![("a".to_string(), u32t(), 0)],
+        en_variants: vec![("A".to_string(), 0, None), ("B".to_string(), 0, None)],
+        other: vec![],
+    };
+    let g = match slot {
+        Slot::Arg | Slot::AsyncArg => m("g", &[("y", t)], u32t()),
+        Slot::Ret | Slot::AsyncRet | Slot::FutureOut => m("g", &[("y", u32t())], t),
+        Slot::ClosureArg => m("g", &[("c", closure(t, u32t()))], u32t()),
+        Slot::ClosureRet => m("g", &[("c", closure(u32t(), t))], u32t()),
+        Slot::NestedArg => {
+            s.other = vec![m("h", &[("x", t)], u32t())];
+            m("g", &[("o", Ty::Other(true))], u32t())
+        }
+        Slot::NestedRet => {
+            s.other = vec![m("h", &[("x", u32t())], t)];
+            m("g", &[("o", Ty::Other(true))], u32t())
+        }
+        Slot::Field => {
+            s.arg_fields = vec![("a".to_string(), t, 0)];
+            m("g", &[("s", Ty::Arg)], u32t())
+        }
+        Slot::VariantField => {
+            s.en_variants = vec![("A".to_string(), 0, Some(t)), ("B".to_string(), 0, None)];
+            m("g", &[("e", Ty::En)], u32t())
+        }
+    };
+    s.methods = vec![g, m("k", &[("z", u32t())], u32t())];
+    if s.other.is_empty() && s.uses_other() {
+        s.other = vec![m("h", &[("x", u32t())], u32t())];
+    }
+    s
+}
+
 pub fn base_spec(kind: Kind) -> Spec {
-    let mut f_args = vec![("x", ArgTy::Prim(Prim::U32)), ("s", ArgTy::Arg), ("e", ArgTy::En)];
+    if let Kind::Types(slot) = kind {
+        return types_spec(slot, &alphabet(slot)[0]);
+    }
+    let mut f_args = vec![("x", u32t()), ("s", Ty::Arg), ("e", Ty::En)];
     match kind {
-        Kind::Closure => f_args.push(("c", ArgTy::Closure(Prim::U32, Prim::U32))),
-        Kind::BoxedTrait => f_args.push(("o", ArgTy::Other)),
+        Kind::Closure => f_args.push(("c", Ty::Closure(ClosureHow::RefFn, bx(u32t()), bx(u32t())))),
+        Kind::BoxedTrait => f_args.push(("o", Ty::Other(true))),
         _ => {}
     }
     Spec {
         version: 0,
-        methods: vec![m("f", &f_args, Prim::U32), m("g", &[("y", ArgTy::Prim(Prim::U32))], Prim::U32)],
-        arg_fields: vec![("a".to_string(), Prim::U32, 0)],
-        en_variants: vec![("A".to_string(), 0), ("B".to_string(), 0)],
-        other: if kind == Kind::BoxedTrait {
-            vec![m("h", &[("x", ArgTy::Prim(Prim::U32))], Prim::U32), m("h2", &[("x", ArgTy::Prim(Prim::U32))], Prim::U32)]
-        } else {
-            vec![]
-        },
+        methods: vec![m("f", &f_args, u32t()), m("g", &[("y", u32t())], u32t())],
+        arg_fields: vec![("a".to_string(), u32t(), 0)],
+        en_variants: vec![("A".to_string(), 0, None), ("B".to_string(), 0, None)],
+        other: if kind == Kind::BoxedTrait { vec![m("h", &[("x", u32t())], u32t()), m("h2", &[("x", u32t())], u32t())] } else { vec![] },
     }
 }
 
-fn apply(edit: Edit, s: &mut Spec) {
+fn apply(kind: Kind, edit: Edit, s: &mut Spec) {
     let g = |s: &mut Spec| s.methods.iter().position(|x| x.name == "g").expect("method g");
     match edit {
         Edit::Same => {}
-        Edit::AddMethod => s.methods.push(m("added", &[("z", ArgTy::Prim(Prim::U32))], Prim::U32)),
-        Edit::AddMethodFront => s.methods.insert(0, m("added", &[("z", ArgTy::Prim(Prim::U32))], Prim::U32)),
+        Edit::AddMethod => s.methods.push(m("added", &[("z", u32t())], u32t())),
+        Edit::AddMethodFront => s.methods.insert(0, m("added", &[("z", u32t())], u32t())),
         Edit::AddVField => {
-            s.arg_fields.push(("b".to_string(), Prim::U32, 1));
+            s.arg_fields.push(("b".to_string(), u32t(), 1));
             s.version = s.version.max(1);
         }
         Edit::AddVFieldWide => {
-            s.arg_fields.push(("b".to_string(), Prim::U64, 1));
+            s.arg_fields.push(("b".to_string(), u64t(), 1));
             s.version = s.version.max(1);
         }
         Edit::AddVField2 => {
-            s.arg_fields.push(("c".to_string(), Prim::U32, 2));
+            s.arg_fields.push(("c".to_string(), u32t(), 2));
             s.version = s.version.max(2);
         }
         Edit::DropVField => s.arg_fields.retain(|f| f.0 != "b"),
         Edit::AddVariant2 => {
-            s.en_variants.push(("D".to_string(), 2));
+            s.en_variants.push(("D".to_string(), 2, None));
             s.version = s.version.max(2);
         }
         Edit::AddVariant => {
-            s.en_variants.push(("C".to_string(), 1));
+            s.en_variants.push(("C".to_string(), 1, None));
             s.version = s.version.max(1);
         }
         Edit::RemoveMethod => {
@@ -252,34 +699,38 @@ fn apply(edit: Edit, s: &mut Spec) {
         }
         Edit::ArgCount => {
             let i = g(s);
-            s.methods[i].args.push(("y2".to_string(), ArgTy::Prim(Prim::U32)));
+            s.methods[i].args.push(("y2".to_string(), u32t()));
         }
         Edit::ArgType => {
             let i = g(s);
-            s.methods[i].args[0].1 = ArgTy::Prim(Prim::U64);
+            s.methods[i].args[0].1 = u64t();
         }
         Edit::RetType => {
             let i = g(s);
-            s.methods[i].ret = Prim::U64;
+            s.methods[i].ret = u64t();
         }
-        Edit::FieldType => s.arg_fields[0].1 = Prim::U64,
+        Edit::FieldType => s.arg_fields[0].1 = u64t(),
         Edit::Bump => s.version += 1,
         Edit::ClosureArgType | Edit::ClosureRetType => {
             for (_, t) in s.methods[0].args.iter_mut() {
-                if let ArgTy::Closure(a, r) = t {
+                if let Ty::Closure(_, a, r) = t {
                     if edit == Edit::ClosureArgType {
-                        *a = Prim::U64
+                        *a = bx(u64t())
                     } else {
-                        *r = Prim::U64
+                        *r = bx(u64t())
                     }
                 }
             }
         }
-        Edit::OtherArgType => s.other[0].args[0].1 = ArgTy::Prim(Prim::U64),
-        Edit::OtherRetType => s.other[0].ret = Prim::U64,
-        Edit::OtherAddMethod => s.other.push(m("h3", &[("x", ArgTy::Prim(Prim::U32))], Prim::U32)),
+        Edit::OtherArgType => s.other[0].args[0].1 = u64t(),
+        Edit::OtherRetType => s.other[0].ret = u64t(),
+        Edit::OtherAddMethod => s.other.push(m("h3", &[("x", u32t())], u32t())),
         Edit::OtherRemoveMethod => {
             s.other.pop();
+        }
+        Edit::SetType(i) => {
+            let slot = kind.slot().expect("SetType only in type-matrix families");
+            *s = types_spec(slot, &alphabet(slot)[i]);
         }
     }
 }
@@ -289,7 +740,7 @@ pub fn spec(kind: Kind, revs: &[Revision], idx: usize) -> Spec {
         None => base_spec(kind),
         Some(p) => {
             let mut s = spec(kind, revs, p);
-            apply(revs[idx].edit, &mut s);
+            apply(kind, revs[idx].edit, &mut s);
             s
         }
     }
@@ -298,13 +749,35 @@ pub fn spec(kind: Kind, revs: &[Revision], idx: usize) -> Spec {
 // ---------------------------------------------------------------------------------------------
 // abstract definitions (what one ledger entry records), and the compatibility relation
 
+/// WIRE FORM of a type: how savefile-abi moves a value of the type across the boundary.
+/// Owned serializable values travel serialized, so their wire form is the grammar of the
+/// serialized form; borrowed values, trait objects and closures have calling conventions of their
+/// own and are therefore never the same as an owned type.
 #[derive(Clone, PartialEq, Eq, Hash, PartialOrd, Ord, Debug)]
 pub enum AType {
-    Prim(Prim),
-    Struct(Vec<(String, AType)>),
-    Enum(Vec<String>),
-    Closure(Vec<AType>, Box<AType>),
+    /// fixed-size scalar, by canonical name (usize = u64, isize = i64: 64-bit targets)
+    Scalar(&'static str),
+    /// owned string: length + utf-8 bytes
+    OwnedString,
+    /// `&str`: raw pointer + length into the memory of the caller
+    RawStr,
+    Unit,
+    Ref(Box<AType>),
+    /// length + elements (Vec, VecDeque, maps as sequences of pairs)
+    Seq(Box<AType>),
+    /// `&[T]`
+    Slice(Box<AType>),
+    Array(usize, Box<AType>),
+    Opt(Box<AType>),
+    /// fields in order (field names and the struct name are not part of the serialized form)
+    Struct(Vec<AType>),
+    /// variants in order with their payloads
+    Enum(Vec<(String, Vec<AType>)>),
+    /// (takes &mut self, arguments, result)
+    Closure(bool, Vec<AType>, Box<AType>),
     Trait(ADef),
+    /// owning pointer to a trait object / closure
+    BoxedDyn(Box<AType>),
     Future(Box<AType>),
 }
 #[derive(Clone, PartialEq, Eq, Hash, PartialOrd, Ord, Debug)]
@@ -319,28 +792,98 @@ pub struct ADef {
     pub methods: Vec<AMethod>,
 }
 
-fn atype(_kind: Kind, s: &Spec, t: &ArgTy, version: u32) -> AType {
+/// The wire form of `t` in the revision `s` as seen at `version`.
+pub fn wire(s: &Spec, t: &Ty, version: u32) -> AType {
+    let w = |t: &Ty| Box::new(wire(s, t, version));
     match t {
-        ArgTy::Prim(p) => AType::Prim(*p),
-        ArgTy::Arg => AType::Struct(s.arg_fields.iter().filter(|f| f.2 <= version).map(|f| (f.0.clone(), AType::Prim(f.1))).collect()),
-        ArgTy::En => AType::Enum(s.en_variants.iter().filter(|v| v.1 <= version).map(|v| v.0.clone()).collect()),
-        ArgTy::Closure(a, r) => AType::Closure(vec![AType::Prim(*a)], Box::new(AType::Prim(*r))),
-        ArgTy::Other => AType::Trait(ADef { methods: s.other.iter().map(|m| amethod(Kind::Plain, s, m, version)).collect() }),
+        Ty::P("usize") => AType::Scalar("u64"),
+        Ty::P("isize") => AType::Scalar("i64"),
+        Ty::P("String") => AType::OwnedString,
+        Ty::P(n) => AType::Scalar(n),
+        Ty::Unit => AType::Unit,
+        Ty::Str | Ty::StaticStr => AType::RawStr,
+        Ty::Ref(t) => AType::Ref(w(t)),
+        Ty::Vec(t) | Ty::VecDeque(t) => AType::Seq(w(t)),
+        Ty::Slice(t) => AType::Slice(w(t)),
+        Ty::Array(t, n) => AType::Array(*n, w(t)),
+        Ty::Opt(t) => AType::Opt(w(t)),
+        // Box<T> of an owned serializable T: schema and serialized form of T
+        Ty::Boxed(t) => *w(t),
+        Ty::Tuple(ts) => AType::Struct(ts.iter().map(|t| wire(s, t, version)).collect()),
+        Ty::Result(a, b) => AType::Enum(vec![("Ok".to_string(), vec![*w(a)]), ("Err".to_string(), vec![*w(b)])]),
+        Ty::HashMap(k, v) | Ty::BTreeMap(k, v) => AType::Seq(Box::new(AType::Struct(vec![*w(k), *w(v)]))),
+        Ty::Arg => AType::Struct(s.arg_fields.iter().filter(|f| f.2 <= version).map(|f| wire(s, &f.1, version)).collect()),
+        Ty::Aux("Arg2") => AType::Struct(vec![AType::Scalar("u32"), AType::Scalar("u32")]),
+        Ty::Aux("En3") => AType::Enum(vec![("A".to_string(), vec![]), ("B".to_string(), vec![]), ("C".to_string(), vec![])]),
+        Ty::Aux(n) => panic!("no such auxiliary type {}", n),
+        Ty::Std("std::time::Duration") => AType::Struct(vec![AType::Scalar("u128")]),
+        Ty::Std("std::ops::Range<u32>") => AType::Struct(vec![AType::Scalar("u32"), AType::Scalar("u32")]),
+        Ty::Std("std::collections::BTreeSet<u32>") => AType::Seq(Box::new(AType::Scalar("u32"))),
+        Ty::Std("std::sync::Arc<str>") | Ty::Std("std::path::PathBuf") => AType::OwnedString,
+        Ty::Std(n) => panic!("no such standard type {}", n),
+        Ty::En => AType::Enum(s.en_variants.iter().filter(|v| v.1 <= version).map(|v| (v.0.clone(), v.2.iter().map(|t| wire(s, t, version)).collect())).collect()),
+        Ty::Closure(how, a, r) => {
+            let c = AType::Closure(*how == ClosureHow::RefMutFnMut, vec![*w(a)], w(r));
+            if *how == ClosureHow::BoxFn {
+                AType::BoxedDyn(Box::new(c))
+            } else {
+                c
+            }
+        }
+        Ty::Other(boxed) => {
+            let d = AType::Trait(ADef { methods: s.other.iter().map(|m| amethod(Kind::Plain, s, m, version)).collect() });
+            if *boxed {
+                AType::BoxedDyn(Box::new(d))
+            } else {
+                AType::Ref(Box::new(d))
+            }
+        }
     }
 }
 fn amethod(kind: Kind, s: &Spec, m: &Method, version: u32) -> AMethod {
-    let ret = AType::Prim(m.ret);
+    let ret = wire(s, &m.ret, version);
     AMethod {
         name: m.name.clone(),
-        is_async: kind == Kind::AsyncTrait,
-        args: m.args.iter().map(|(_, t)| atype(kind, s, t, version)).collect(),
-        ret: if kind == Kind::BoxedFuture { AType::Future(Box::new(ret)) } else { ret },
+        is_async: kind.shape() == Kind::AsyncTrait,
+        args: m.args.iter().map(|(_, t)| wire(s, t, version)).collect(),
+        ret: if kind.shape() == Kind::BoxedFuture { AType::Future(Box::new(ret)) } else { ret },
     }
 }
 /// The definition of the interface of `s` as seen at `version` (fields / variants introduced
 /// later do not exist there).
 pub fn adef(kind: Kind, s: &Spec, version: u32) -> ADef {
     ADef { methods: s.methods.iter().map(|m| amethod(kind, s, m, version)).collect() }
+}
+
+fn add(r: String, out: &mut Vec<String>) {
+    if !out.contains(&r) {
+        out.push(r)
+    }
+}
+
+/// Why a value position of type `new` does not accept what was recorded as `old`. `what` names
+/// the position (`arg_type` / `ret_type`).
+fn type_incompat(new: &AType, old: &AType, prefix: &str, what: &str, out: &mut Vec<String>) {
+    match (new, old) {
+        (AType::Trait(nd), AType::Trait(od)) => incompat(nd, od, &format!("{}nested_", prefix), out),
+        (AType::BoxedDyn(n), AType::BoxedDyn(o)) => type_incompat(n, o, prefix, what, out),
+        (AType::Ref(n), AType::Ref(o)) if matches!((&**n, &**o), (AType::Trait(_), AType::Trait(_))) => type_incompat(n, o, prefix, what, out),
+        (AType::Closure(nm, na, nr), AType::Closure(om, oa, or)) => {
+            if nm != om {
+                add(format!("{}closure_mutability", prefix), out);
+            }
+            if na != oa {
+                add(format!("{}closure_arg_type", prefix), out);
+            }
+            if nr != or {
+                add(format!("{}closure_ret_type", prefix), out);
+            }
+        }
+        (AType::Struct(a), AType::Struct(b)) if a != b => add(format!("{}{}_struct", prefix, what), out),
+        (AType::Enum(a), AType::Enum(b)) if a != b => add(format!("{}{}_enum", prefix, what), out),
+        (a, b) if a != b => add(format!("{}{}", prefix, what), out),
+        _ => {}
+    }
 }
 
 /// Why `new` is NOT backward compatible with the recorded `old` (empty = compatible).
@@ -350,11 +893,6 @@ pub fn adef(kind: Kind, s: &Spec, version: u32) -> ADef {
 /// its own definition is compatible by the same rules (reasons prefixed `nested_`); a closure
 /// argument must have the same signature.
 pub fn incompat(new: &ADef, old: &ADef, prefix: &str, out: &mut Vec<String>) {
-    let add = |r: String, out: &mut Vec<String>| {
-        if !out.contains(&r) {
-            out.push(r)
-        }
-    };
     for om in &old.methods {
         let Some(nm) = new.methods.iter().find(|x| x.name == om.name) else {
             add(format!("{}removed_method", prefix), out);
@@ -367,25 +905,14 @@ pub fn incompat(new: &ADef, old: &ADef, prefix: &str, out: &mut Vec<String>) {
             add(format!("{}arg_count", prefix), out);
         } else {
             for (na, oa) in nm.args.iter().zip(om.args.iter()) {
-                match (na, oa) {
-                    (AType::Trait(nd), AType::Trait(od)) => incompat(nd, od, &format!("{}nested_", prefix), out),
-                    (AType::Closure(na, nr), AType::Closure(oa, or)) => {
-                        if na != oa {
-                            add(format!("{}closure_arg_type", prefix), out);
-                        }
-                        if nr != or {
-                            add(format!("{}closure_ret_type", prefix), out);
-                        }
-                    }
-                    (AType::Struct(a), AType::Struct(b)) if a != b => add(format!("{}arg_type_struct", prefix), out),
-                    (AType::Enum(a), AType::Enum(b)) if a != b => add(format!("{}arg_type_enum", prefix), out),
-                    (a, b) if a != b => add(format!("{}arg_type", prefix), out),
-                    _ => {}
-                }
+                type_incompat(na, oa, prefix, "arg_type", out);
             }
         }
-        if nm.ret != om.ret {
-            add(format!("{}ret_type", prefix), out);
+        match (&nm.ret, &om.ret) {
+            // a returned trait object / closure: compared like an argument of that kind
+            (AType::BoxedDyn(_), AType::BoxedDyn(_)) => type_incompat(&nm.ret, &om.ret, prefix, "ret_type", out),
+            (a, b) if a != b => add(format!("{}ret_type", prefix), out),
+            _ => {}
         }
     }
 }
@@ -398,16 +925,9 @@ fn emit_methods(kind: Kind, methods: &[Method], out: &mut String) {
     for me in methods {
         let mut args = String::from("&self");
         for (n, t) in &me.args {
-            let ty = match t {
-                ArgTy::Prim(p) => p.src().to_string(),
-                ArgTy::Arg => "Arg".to_string(),
-                ArgTy::En => "En".to_string(),
-                ArgTy::Closure(a, r) => format!("&dyn Fn({}) -> {}", a.src(), r.src()),
-                ArgTy::Other => "Box<dyn Other>".to_string(),
-            };
-            args.push_str(&format!(", {}: {}", n, ty));
+            args.push_str(&format!(", {}: {}", n, t.src()));
         }
-        match kind {
+        match kind.shape() {
             Kind::AsyncTrait => out.push_str(&format!("        async fn {}({}) -> {};\n", me.name, args, me.ret.src())),
             Kind::BoxedFuture => out.push_str(&format!("        fn {}({}) -> Pin<Box<dyn Future<Output = {}>>>;\n", me.name, args, me.ret.src())),
             _ => out.push_str(&format!("        fn {}({}) -> {};\n", me.name, args, me.ret.src())),
@@ -429,27 +949,48 @@ pub fn emit_module(kind: Kind, rev: usize, label: &str, s: &Spec) -> String {
     o.push_str("    #![allow(dead_code, unused_imports)]\n");
     o.push_str("    use savefile::prelude::*;\n    use savefile_derive::Savefile;\n    use savefile_derive::savefile_abi_exportable;\n");
     o.push_str("    use std::future::Future;\n    use std::pin::Pin;\n    use async_trait::async_trait;\n");
-    o.push_str("    #[derive(Savefile)]\n    pub struct Arg {\n");
-    for (n, t, from) in &s.arg_fields {
-        if *from > 0 {
-            o.push_str(&format!("        #[savefile_versions = \"{}..\"]\n", from));
+    // the evolution families always declare Arg and En; the type-matrix families only what they use
+    let evolution = kind.slot().is_none();
+    let uses_en = evolution || s.uses_en();
+    let uses_arg = evolution || s.uses_arg();
+    // (En may be a field of Arg and Arg may be the payload of a variant of En, never both)
+    let emit_arg = |o: &mut String| {
+        o.push_str("    #[derive(Savefile)]\n    pub struct Arg {\n");
+        for (n, t, from) in &s.arg_fields {
+            if *from > 0 {
+                o.push_str(&format!("        #[savefile_versions = \"{}..\"]\n", from));
+            }
+            o.push_str(&format!("        pub {}: {},\n", n, t.src()));
         }
-        o.push_str(&format!("        pub {}: {},\n", n, t.src()));
+        o.push_str("    }\n");
+    };
+    if uses_arg {
+        emit_arg(&mut o);
     }
-    o.push_str("    }\n    #[derive(Savefile)]\n    pub enum En {\n");
-    for (n, from) in &s.en_variants {
-        if *from > 0 {
-            o.push_str(&format!("        #[savefile_versions = \"{}..\"]\n", from));
+    if uses_en {
+        o.push_str("    #[derive(Savefile)]\n    pub enum En {\n");
+        for (n, from, payload) in &s.en_variants {
+            if *from > 0 {
+                o.push_str(&format!("        #[savefile_versions = \"{}..\"]\n", from));
+            }
+            match payload {
+                Some(t) => o.push_str(&format!("        {}({}),\n", n, t.src())),
+                None => o.push_str(&format!("        {},\n", n)),
+            }
         }
-        o.push_str(&format!("        {},\n", n));
+        o.push_str("    }\n");
     }
-    o.push_str("    }\n");
+    for (name, decl) in AUX {
+        if s.uses_aux(name) {
+            o.push_str(decl);
+        }
+    }
     if !s.other.is_empty() {
         o.push_str(&format!("    #[savefile_abi_exportable(version = {})]\n    pub trait Other {{\n", s.version));
         emit_methods(Kind::Plain, &s.other, &mut o);
         o.push_str("    }\n");
     }
-    if kind == Kind::AsyncTrait {
+    if kind.shape() == Kind::AsyncTrait {
         o.push_str("    #[async_trait]\n");
     }
     o.push_str(&format!("    #[savefile_abi_exportable(version = {})]\n    pub trait Iface {{\n", s.version));
@@ -469,7 +1010,7 @@ pub fn emit_all() -> String {
         let revs = revisions(kind);
         for (i, r) in revs.iter().enumerate() {
             let s = spec(kind, &revs, i);
-            o.push_str(&emit_module(kind, i, r.label, &s));
+            o.push_str(&emit_module(kind, i, &r.label, &s));
             let md = module_name(kind, i);
             run.push_str(&format!("        ({}, {}) => savefile_abi::verify_compatiblity::<dyn {}::Iface>(dir),\n", kind.index(), i, md));
             def.push_str(&format!(
